@@ -12,7 +12,7 @@ def ty_after(ty, a):
         return ("p", U, ty)
     if k == "zip":
         return ("p", ty, U)
-    if k in ("map", "filter_map", "flat_map", "flatten"):
+    if k in ("map", "map_s", "filter_map", "flat_map", "flatten"):
         return U
     return ty
 
@@ -64,6 +64,8 @@ def adapters_text(chain, std, hyg=None):
             t = ("map(|%s| { let k = %s; k..k + 2 })" % (p, key)) + (".flatten()" if std else ", flatten()")
         elif k == "map":
             t = "map(|%s| %s + %d)" % (p, key, n)
+        elif k == "map_s":
+            t = "map(|%s| { cnt%d += 1; %s * 10 + cnt%d })" % (p, len(parts), key, len(parts))
         elif k == "rev":
             t = "rev()"
         elif k == "skip":
@@ -94,7 +96,7 @@ def real_ty(chain):
             ty = "(usize, %s)" % ty
         elif k == "zip":
             ty = "(%s, u64)" % ty
-        elif k in ("map", "filter_map", "flat_map", "flatten"):
+        elif k in ("map", "map_s", "filter_map", "flat_map", "flatten"):
             ty = "u64"
     return ty
 
@@ -151,17 +153,24 @@ def std_guard_applies(r):
     return not r["known"]
 
 
+def has_state(r):
+    return any(a["k"] == "map_s" for a in r["chain"])
+
+
 def case(r, hyg=None):
-    """-> (body, exp_string, model_string)"""
+    """-> (body, exp_string, model_string), or None (a closure with state cannot be captured by collect_const!'s const item)"""
     chain, cons, n = r["chain"], r["cons"], r["n"]
+    if cons == "collect" and has_state(r):
+        return None
     kparts, ty = adapters_text(chain, False, hyg)
     sparts, _ = adapters_text(chain, True)
     p, key = pat_key(ty, Names())
+    cnts = " ".join("let mut cnt%d = 0u64;" % q for q, a in enumerate(chain) if a["k"] == "map_s")
     pre = "const ZO: &[u64] = &[10, 20, 30];" + (" const %s: usize = 7;" % hyg if hyg else "")
     if cons == "for_each":
-        kf = ("fn k(inp: &[u64]) -> String { let mut out: Vec<u64> = Vec::new(); konst::iter::for_each!{%s in inp, copied()%s => out.push(%s); } format!(\"{:?}\", out) }"
+        kf = ("fn k(inp: &[u64]) -> String { " + cnts + " let mut out: Vec<u64> = Vec::new(); konst::iter::for_each!{%s in inp, copied()%s => out.push(%s); } format!(\"{:?}\", out) }"
               % (p, "".join(", " + x for x in kparts), key))
-        sf = ("fn s(inp: &[u64]) -> String { let mut out: Vec<u64> = Vec::new(); for %s in inp.iter().copied()%s { out.push(%s); } format!(\"{:?}\", out) }"
+        sf = ("fn s(inp: &[u64]) -> String { " + cnts + " let mut out: Vec<u64> = Vec::new(); for %s in inp.iter().copied()%s { out.push(%s); } format!(\"{:?}\", out) }"
               % (p, "".join("." + x for x in sparts), key))
         call = "format!(\"K:{};S:{}\", INS.iter().map(|i| k(i)).collect::<Vec<_>>().join(\"|\"), INS.iter().map(|i| s(i)).collect::<Vec<_>>().join(\"|\"))"
     elif cons == "collect":
@@ -179,10 +188,10 @@ def case(r, hyg=None):
     else:
         ct, post = consumer_text(cons, n, ty, False)
         postk = (".map(|%s| %s)" % post) if post else ""
-        kf = ("fn k(inp: &[u64]) -> String { format!(\"{:?}\", konst::iter::eval!(inp, copied()%s, %s)%s) }"
+        kf = ("fn k(inp: &[u64]) -> String { " + cnts + " format!(\"{:?}\", konst::iter::eval!(inp, copied()%s, %s)%s) }"
               % ("".join(", " + x for x in kparts), ct, postk))
         # std: rposition needs the documented semantics only for the guard; it is skipped there
-        sf = ("fn s(inp: &[u64]) -> String { format!(\"{:?}\", inp.iter().copied()%s.%s%s) }"
+        sf = ("fn s(inp: &[u64]) -> String { " + cnts + " format!(\"{:?}\", inp.iter().copied()%s.%s%s) }"
               % ("".join("." + x for x in sparts), ct, postk))
         call = "format!(\"K:{};S:{}\", INS.iter().map(|i| k(i)).collect::<Vec<_>>().join(\"|\"), INS.iter().map(|i| s(i)).collect::<Vec<_>>().join(\"|\"))"
     ins = "const INS: &[&[u64]] = &[%s];" % ", ".join("&[%s]" % ", ".join("%du64" % x for x in i) for i in INPUTS)
@@ -246,6 +255,8 @@ def alt_source_case(r, kind):
     idxs = [q for q, ks in enumerate(r["srcs"]) if kind in ks]
     # take(k) right after repeat(v) is part of the source: a reversing method later would make it the known shape
     if kind == "repeat_take" and has_rev(r):
+        return None
+    if has_state(r):
         return None
     if not idxs:
         return None
